@@ -433,11 +433,28 @@ theorem insertCheck_sound' (g : Grammar) (host ins r : DTree) (h : insertCheck g
     obtain ⟨⟨q, v⟩, hqv, hp⟩ := h4
     exact ⟨q, v, (C04.mem_paths_iff r q v).1 hqv, (embedsAt_iff' ins v).1 hp⟩
 
+theorem embedsAt_sym (a b : DTree) (h : embedsAt a b = true) : b.sym = a.sym := by
+  cases a with
+  | openLeaf i s =>
+    simp [embedsAt] at h
+    simp [DTree.sym, h]
+  | node i s ks =>
+    cases b with
+    | openLeaf j s' => simp [embedsAt] at h
+    | node j s' ks' =>
+      simp [embedsAt] at h
+      simp [DTree.sym, h.1.2]
+
 theorem completionCheck_sound' (g : Grammar) (t r : DTree) (h : completionCheck g t r = true) :
-    r.valid g = true ∧ r.closed = true ∧ IdPrefix t r ∧ r.sym = t.sym := by
+    r.valid g = true ∧ r.closed = true ∧ Embeds t r ∧ r.sym = t.sym := by
   simp only [completionCheck, Bool.and_eq_true] at h
   obtain ⟨⟨h1, h2⟩, h3⟩ := h
-  exact ⟨h1, h2, (idPrefixOf_iff' t r).1 h3, (idPrefixOf_id_sym t r h3).2⟩
+  exact ⟨h1, h2, (embedsAt_iff' t r).1 h3, embedsAt_sym t r h3⟩
+
+theorem mutationCheck_sound' (g : Grammar) (t r : DTree) (h : mutationCheck g t r = true) :
+    r.valid g = true ∧ r.closed = true ∧ r.sym = t.sym := by
+  simp only [mutationCheck, Bool.and_eq_true, beq_iff_eq] at h
+  exact ⟨h.1.1, h.1.2, h.2⟩
 
 end DTree
 end IslaVerif
